@@ -180,11 +180,63 @@ def checks(jobs, qs=6, shards=2):
     json.dump(done, open(path, 'w'))
 
 
+def recheck_one(args):
+    m, todo = args
+    d = make_copy()
+    res = {}
+    try:
+        open(os.path.join(d, m['file']), 'w').write(m['text'])
+        for c in todo:
+            env = dict(os.environ, VERIF_REPO=d, VERIF_QUICK_S='12', VERIF_SHARDS='8', VERIF_COV='0')
+            try:
+                p = subprocess.run([PY, 'run.py', 'check', c, '--tier', 'quick'], cwd=ROOT, env=env, capture_output=True, text=True, timeout=1200)
+                keys = [l.strip().split(']')[0].lstrip('[') for l in p.stdout.splitlines() if l.startswith('  [')]
+                res[c] = dict(rc=p.returncode, keys=keys[:2])
+                if p.returncode == 1:
+                    break
+            except subprocess.TimeoutExpired:
+                res[c] = dict(rc='timeout', keys=[])
+    finally:
+        shutil.rmtree(d, ignore_errors=True)
+    return m['id'], res
+
+
+EXTRA = {'droop/record.py': ['C07', 'C03', 'C09'], 'droop/rules/mpls.py': ['C17'], 'droop/rules/scotland.py': ['C07', 'C03'],
+         'droop/rules/cfer.py': ['C03', 'C04'], 'droop/rules/meek_prf.py': ['C03', 'C04']}
+
+
+def recheck(jobs):
+    "uncaught survivors: repeat the inconclusive (exit 2) checks and the targeted extras at proper strength (8 shards, 12 s)"
+    muts = {m['id']: m for m in json.load(open(os.path.join(STATE, 'mutants.json')))}
+    done = json.load(open(os.path.join(STATE, 'checks.json')))
+    path = os.path.join(STATE, 'recheck.json')
+    re_ = json.load(open(path)) if os.path.exists(path) else {}
+    work = []
+    for i, r in done.items():
+        if any(c['rc'] == 1 for c in r.values()) or i in re_:
+            continue
+        if i.startswith('Droop.py:1') and int(i.split(':')[1]) >= 100:
+            continue        # the __main__ block / usage text
+        todo = [c for c, v in r.items() if v['rc'] == 2] + [c for c in EXTRA.get(muts[i]['file'], [])]
+        todo = list(dict.fromkeys(todo))
+        if todo:
+            work.append((muts[i], todo))
+    with concurrent.futures.ThreadPoolExecutor(max_workers=jobs) as ex:
+        for k, (mid, res) in enumerate(ex.map(recheck_one, work)):
+            re_[mid] = res
+            json.dump(re_, open(path, 'w'))
+            print(k, len(work), mid, {c: v['rc'] for c, v in res.items()}, flush=True)
+
+
 def report():
     muts = {m['id']: m for m in json.load(open(os.path.join(STATE, 'mutants.json')))}
     tests_ = json.load(open(os.path.join(STATE, 'tests.json')))
     done = json.load(open(os.path.join(STATE, 'checks.json')))
     surv = [i for i, v in tests_.items() if v['survives']]
+    rpath = os.path.join(STATE, 'recheck.json')
+    re_ = json.load(open(rpath)) if os.path.exists(rpath) else {}
+    for i, r in re_.items():
+        done[i] = dict(done.get(i, {}), **{c + "'": v for c, v in r.items()})
     caught = [i for i in done if any(c['rc'] == 1 for c in done[i].values())]
     print('mutants %d, killed by the test suite %d, survivors %d, survivors judged %d, caught by a check %d' % (
         len(tests_), len(tests_) - len(surv), len(surv), len(done), len(caught)))
@@ -202,5 +254,7 @@ if __name__ == '__main__':
         tests(jobs)
     elif cmd == 'checks':
         checks(jobs)
+    elif cmd == 'recheck':
+        recheck(jobs)
     elif cmd == 'report':
         report()
